@@ -15,13 +15,13 @@ enum OpKind {
   O_CREATE = 0, O_RELEASE, O_CALL, O_MOVE_MOCK, O_DESTROY_MOCK, O_RECREATE_MOCK,
   O_DESTROY_SEQ, O_MOVE_SEQ, O_RECREATE_SEQ,
   O_WATCH, O_UNWATCH, O_DESTROY_DW, O_COPY_DW, O_MOVE_DW, O_ASSIGN_DW, O_RECREATE_DW,
-  O_PUSH_TRACER, O_POP_TRACER, O_SWAP_REPORTER, O_DESTROY_HUSKS, NOPKIND
+  O_PUSH_TRACER, O_POP_TRACER, O_SWAP_REPORTER, O_DESTROY_HUSKS, O_SCOPED, NOPKIND
 };
 inline const char* op_name(int k) {
   static const char* n[] = {"create", "release", "call", "move_mock", "destroy_mock", "recreate_mock",
                             "destroy_seq", "move_seq", "recreate_seq",
                             "watch", "unwatch", "destroy_dw", "copy_dw", "move_dw", "assign_dw", "recreate_dw",
-                            "push_tracer", "pop_tracer", "swap_reporter", "destroy_husks"};
+                            "push_tracer", "pop_tracer", "swap_reporter", "destroy_husks", "scoped"};
   return (k >= 0 && k < NOPKIND) ? n[k] : "?";
 }
 // argument layout of O_CREATE
@@ -151,7 +151,7 @@ constexpr long COST_INF = 1L << 40;
 class Model {
  public:
   std::map<int, MExp> E;
-  int slot_eid[NSLOT + NLIT];
+  int slot_eid[NALL];
   int mon_eid[NDW][NMON];
   MObj obj[NOBJ];
   MSeq seq[NSEQ];
@@ -191,7 +191,7 @@ class Model {
         for (int j = 0; j < s.nseq; ++j) if (!seq[s.seq[j]].alive) return false;
         if (s.nseq == 2 && s.seq[0] == s.seq[1]) return false;
         if (s.nseq > 0 && s.hi == 0) return false;  // forbidden + IN_SEQUENCE: excluded (compile-time API forbids it)
-        if (s.lit >= 0) for (int q = NSLOT; q < NSLOT + NLIT; ++q) if (slot_eid[q] >= 0 && E.at(slot_eid[q]).s.lit == s.lit) return false;  // one location = one live expectation
+        if (s.lit >= 0) for (int q = NSLOT; q < NALL; ++q) if (slot_eid[q] >= 0 && E.at(slot_eid[q]).s.lit == s.lit) return false;  // one location = one live expectation
         if ((s.lit >= 0) != (s.slot >= NSLOT)) return false;
         return true;
       }
@@ -220,6 +220,7 @@ class Model {
       case O_POP_TRACER: return !tracers.empty();
       case O_SWAP_REPORTER: return true;
       case O_DESTROY_HUSKS: return husks > 0;
+      case O_SCOPED: return obj[o.at(0)].alive && o.at(1) != o.at(2);  // composite: executed by the interpreter as sub-operations
     }
     return false;
   }
